@@ -168,6 +168,13 @@ theorem C09_empty (L : Lattice) : upsetUnion L [] = [] ∧ downsetUnion L [] = [
   rw [C09_upsetUnion_def, C09_downsetUnion_def, maximalBy_nil, maximalBy_nil]
   exact ⟨C09_iterunion_nil _ _ _, C09_iterunion_nil _ _ _⟩
 
+/-- `Concept.upset()` / `downset()` call `iterunion([self], …)` directly, without `tools.maximal`: for a
+single seed the reduction is the identity, so the single-concept traversals are the union traversals -/
+theorem C09_single_seed (L : Lattice) (c : Nat) :
+    upsetUnion L [c] = iterunion id L.upperAt (L.travFuel [c]) [c] ∧
+    downsetUnion L [c] = iterunion L.dindexAt L.lowerAt (L.travFuel [c]) [c] := by
+  constructor <;> simp [upsetUnion, downsetUnion, maximalBy, List.eraseDups_cons]
+
 /-- the union traversals only depend on the *set* of given concepts -/
 theorem C09_union_congr (K : Ctx) (h : K.WF) (cs cs' : List Nat) (hv : ∀ c ∈ cs, c < (mkLattice K).length)
     (hm : ∀ x, x ∈ cs ↔ x ∈ cs') :
